@@ -2072,7 +2072,12 @@ impl TypedOp for BinaryOp {
                 // todo: make sure this is consistent with codegen
                 !matches!(
                     found.absolute_ty(),
-                    Ty::Any | Ty::RawPtr { .. } | Ty::RawSlice | Ty::Unknown
+                    Ty::Any
+                        | Ty::RawPtr { .. }
+                        | Ty::RawSlice
+                        | Ty::Unknown
+                        | Ty::ConcreteFunction { .. }
+                        | Ty::FunctionPointer { .. }
                 )
             }
             BinaryOp::LAnd | BinaryOp::LOr => *found.absolute_ty() == Ty::Bool,
